@@ -144,6 +144,8 @@ def hist_configs(tier) -> list[dict]:
     out += [dict(c, elemType="QUAD4", tolConv=1e-2) for c in deviations(factors, 1 if tier == "quick" else None)]
     # every saved step followed by Set_Iter(-1) (a restart from the step just saved: a no-op for the state, history field included)
     out += [dict(c, elemType="QUAD4", restore=True) for c in deviations(factors, 1 if tier == "quick" else None)]
+    # ... or by a look at the FIRST stored iteration and a return to the last one (what every exporter loop does)
+    out += [dict(c, elemType="QUAD4", restore="peek") for c in deviations(factors, 1 if tier == "quick" else None)]
     return out
 
 
@@ -773,7 +775,7 @@ def run_sequence(case, seq):
     if "tolConv" in case:
         base["staggered"] = "converged"
     if case.get("restore"):
-        base["restore"] = True
+        base["restore"] = case["restore"]
     v, obs = [], []
     d_prev = np.zeros(mesh.Nn)
     H_prev = None
@@ -792,7 +794,10 @@ def run_sequence(case, seq):
             else:
                 simu.Solve()
         simu.Save_Iter()
-        if case.get("restore"):
+        if case.get("restore") == "peek":
+            simu.Set_Iter(0)
+            simu.Set_Iter(-1)
+        elif case.get("restore"):
             simu.Set_Iter(-1)
         d_saved = np.array(simu.Get_results(-1)["damage"], dtype=float)
         d_live = np.array(simu.damage, dtype=float)
